@@ -172,16 +172,38 @@ Definition data_as_duration (c : cell) : outcome (option timedelta) :=
 
 (* ---------- the serde helpers of src/lib.rs ----------
    deserialize_as_{datetime,date,time,duration}_or_{none,string}(deserializer) do
-       let data = Data::deserialize(deserializer)?;  Ok(data.as_xxx())      (or .ok_or_else(to_string))
-   When the deserializer is calamine's own cell deserializer (src/de.rs, DataDeserializer::
-   deserialize_any), a Data::DateTime(v) cell is handed to Data's visitor as visit_f64(v.as_f64()),
-   so the helper sees Data::Float(value): the date system and the DateTime/TimeDelta type are gone.
-   Int, Float, String, Bool and Empty cells come back as themselves; an Error cell makes
-   Data::deserialize fail with DeError::CellError.  The *_or_string variants differ only in
-   reporting None as Err(cell text), which is not modelled (f64 Display is external). *)
+       let data = Data::deserialize_from(deserializer, true)?;  Ok(data.as_xxx())   (or .ok_or_else(to_string))
+   Data::deserialize_from(d, true) (src/datatype.rs) asks d for the newtype "$calamine::private::Cell".
+   When d is calamine's own cell deserializer (src/de.rs, DataDeserializer::deserialize_newtype_struct)
+   a Data::DateTime(v) cell answers visit_map {variant: v.as_f64()}, the variant name
+   (ExcelDateTime::cell_variant: DateTime | DateTime1904 | TimeDelta | TimeDelta1904) carrying the
+   type and the date system, and Data's visitor rebuilds ExcelDateTime::new(value, type, is_1904):
+   [cell_variant] / [of_cell_variant] below.  Every other cell answers visit_newtype_struct(self),
+   which the visitor forwards to deserialize_any: Int, Float, String, Bool and Empty cells come back
+   as themselves; an Error cell makes the deserialization fail with DeError::CellError.
+   (Before the fix of F34/F35 the helpers used Data::deserialize = deserialize_any, which hands a
+   DateTime cell over as visit_f64(v.as_f64()): the helper saw Data::Float(value).)
+   The *_or_string variants differ only in reporting None as Err(cell text), which is not modelled
+   (f64 Display is external). *)
+Definition cell_variant (x : excel_dt) : N :=          (* 0 DateTime, 1 DateTime1904, 2 TimeDelta, 3 TimeDelta1904 *)
+  match edt_is_duration x, edt_is_1904 x with
+  | false, false => 0%N | false, true => 1%N | true, false => 2%N | true, true => 3%N
+  end.
+Definition of_cell_variant (k : N) (v : f64) : option excel_dt :=
+  match k with
+  | 0%N => Some {| edt_value := v; edt_is_duration := false; edt_is_1904 := false |}
+  | 1%N => Some {| edt_value := v; edt_is_duration := false; edt_is_1904 := true |}
+  | 2%N => Some {| edt_value := v; edt_is_duration := true; edt_is_1904 := false |}
+  | 3%N => Some {| edt_value := v; edt_is_duration := true; edt_is_1904 := true |}
+  | _ => None                                          (* the visitor: invalid_type(Map) *)
+  end.
 Definition de_roundtrip (c : cell) : outcome cell :=
   match c with
-  | CDateTime x => Ok (CFloat (edt_value x))
+  | CDateTime x =>
+      match of_cell_variant (cell_variant x) (edt_value x) with
+      | Some x' => Ok (CDateTime x')
+      | None => Err 2
+      end
   | CError => Err 1
   | _ => Ok c
   end.
@@ -232,23 +254,3 @@ Definition F61 : f64 := f64_of_Z 61.
 Definition known_C11 (v : f64) (is_1904 : bool) : option N :=
   let f := offset_serial v is_1904 in
   if f64_ge f F60 && f64_lt f F61 then Some FICTITIOUS_LEAP_DAY else None.
-
-(* Known classes at the serde helpers (candidate findings F34, F35): what the helper returns is
-   supposed to be the cell's own conversion.
-   F34: a DateTime cell of a 1904-system workbook is converted in the 1900 system (1462 days off).
-   F35: a DateTime cell that has a duration never yields it: the helper always answers None. *)
-Definition HELPER_DROPS_1904 : N := 34.
-Definition HELPER_DURATION_NONE : N := 35.
-Definition known_C11_helper_dt (c : cell) : option N :=
-  match c with
-  | CDateTime x => if edt_is_1904 x then Some HELPER_DROPS_1904 else None
-  | _ => None
-  end.
-Definition known_C11_helper_dur (c : cell) : option N :=
-  match c with
-  | CDateTime x => match edt_as_duration x with
-                   | Ok None => None
-                   | _ => Some HELPER_DURATION_NONE
-                   end
-  | _ => None
-  end.
